@@ -22,7 +22,7 @@ PROPERTY = "C02"
 LEVEL = "model_checking"
 RULE = (
     "(1) the C01 instance set (grammar x constraint schema x settings), 4 solve() calls + 3 calls after the first StopIteration/TimeoutError; "
-    "(2) every operator skeleton of the C05 alphabet as 'exists <x> x: exists <y> y: atom(x, y)' over a two-word grammar, 3 calls + 2 extra; "
+    "(2) every operator skeleton of the C05 alphabet, plain and negated, as 'exists <x> x: exists <y> y: atom(x, y)' over a five-word grammar, 3 calls + 2 extra; "
     "(3) 8 instances with many solutions x deadline placed at every clock poll index 0..K (K = polls of a 6-call run, <= 40) x clock "
     "standing still / advancing afterwards, 3 extra calls; the lifecycle automaton ACTIVE -> {ACTIVE, EXHAUSTED, TIMED_OUT} with absorbing "
     "sinks is the oracle; a schema is (part, grammar, constraint schema); non-trivial iff at least two different outcome kinds occurred"
@@ -49,7 +49,9 @@ def op_instances(tier):
                 seen.add(k)
                 out.append((e, fam))
         sk = out
-    return sk
+    # every skeleton also negated (the solver then needs values at the operator's boundary cases)
+    negfams = ("strint", "strfun", "strpred", "toint")
+    return [(e, fam, neg) for e, fam in sk for neg in (False, True) if not neg or tier == "thorough" or fam in negfams]
 
 
 def clock_instances():
@@ -74,8 +76,8 @@ def chunks(tier, seed):
     for i in range(0, len(I), per):
         out.append(dict(kind="life", lo=i, hi=min(len(I), i + per), tier=tier))
     O = op_instances(tier)
-    for i in range(0, len(O), 6):
-        out.append(dict(kind="ops", lo=i, hi=min(len(O), i + 6), tier=tier))
+    for i in range(0, len(O), 8):
+        out.append(dict(kind="ops", lo=i, hi=min(len(O), i + 8), tier=tier))
     for i in range(len(clock_instances())):
         out.append(dict(kind="clock", idx=i, tier=tier))
     return out
@@ -133,15 +135,17 @@ def run_chunk(chunk):
             r.sample({"part": "lifecycle", "grammar": name, "constraint": text, "setting": sname, "outcomes": [o[0] for o in outs]}, limit=2)
         return r
     if chunk["kind"] == "ops":
-        for e, fam in op_instances(tier)[chunk["lo"]:chunk["hi"]]:
+        for e, fam, neg in op_instances(tier)[chunk["lo"]:chunk["hi"]]:
             names = smt.variables(e)
             body = smt.to_isla(e)
+            if neg:
+                body = f"not ({body})"
             for n in reversed(names):
                 body = f"exists <{n}> {n} in start: ({body})"
             r.state("ops", body)
             outs, info = solvdrv.drive(OPG, body, {"timeout_seconds": 4}, 3, extra_calls=2, default_seed=SEED, call_cap=12.0, total_cap=24.0)
             r.transitions += info["steps"]
-            judge(r, outs, ("ops", c05.op_key(e)), f"ISLaSolver(two-word grammar, {body!r})", dict(kind="ops", e=e))
+            judge(r, outs, ("ops", c05.op_key(e), neg), f"ISLaSolver(two-word grammar, {body!r})", dict(kind="ops", e=e, neg=neg))
             r.sample({"part": "operator sweep", "constraint": body, "outcomes": [o[0] for o in outs]}, limit=2)
         return r
     # virtual clock
@@ -179,6 +183,8 @@ def replay(case):
         e = case["e"]
         names = smt.variables(e)
         body = smt.to_isla(e)
+        if case.get("neg"):
+            body = f"not ({body})"
         for n in reversed(names):
             body = f"exists <{n}> {n} in start: ({body})"
         outs, info = solvdrv.drive(OPG, body, {"timeout_seconds": 8}, 3, extra_calls=2, default_seed=SEED, call_cap=20.0, total_cap=60.0)
